@@ -27,12 +27,14 @@ pub struct Parser {
     roots_parsed: bool,
     where_parsed: bool,
     depth: usize,
+    terms: usize,
 }
 
 /// Brackets and function calls nest by recursion: deeper than this is refused, not crashed on.
 const MAX_NESTING_DEPTH: usize = 200;
 
-/// A chain of operators builds a tree as deep as it is long (and is evaluated by recursion).
+/// A chain of operators builds a tree as deep as it is long (and is evaluated by recursion), and a
+/// bracketed operand starts another chain below it: the limit is for one whole expression.
 const MAX_CHAIN_LENGTH: usize = 1000;
 
 impl Parser {
@@ -43,6 +45,7 @@ impl Parser {
             roots_parsed: false,
             where_parsed: false,
             depth: 0,
+            terms: 0,
         }
     }
 
@@ -480,6 +483,10 @@ impl Parser {
             return Err(String::from("Expression is nested too deeply"));
         }
 
+        if self.depth == 0 {
+            self.terms = 0;
+        }
+
         self.depth += 1;
         let result = self.parse_or();
         self.depth -= 1;
@@ -491,13 +498,12 @@ impl Parser {
         let left = self.parse_and()?;
 
         let mut right: Option<Expr> = None;
-        let mut terms = 0;
         loop {
             let lexem = self.next_lexem();
             match lexem {
                 Some(Lexem::Or) => {
-                    terms += 1;
-                    if terms > MAX_CHAIN_LENGTH {
+                    self.terms += 1;
+                    if self.terms > MAX_CHAIN_LENGTH {
                         return Err(String::from("Expression is too long"));
                     }
                     let expr = self.parse_and()?;
@@ -528,13 +534,12 @@ impl Parser {
         let left = self.parse_cond()?;
 
         let mut right: Option<Expr> = None;
-        let mut terms = 0;
         loop {
             let lexem = self.next_lexem();
             match lexem {
                 Some(Lexem::And) => {
-                    terms += 1;
-                    if terms > MAX_CHAIN_LENGTH {
+                    self.terms += 1;
+                    if self.terms > MAX_CHAIN_LENGTH {
                         return Err(String::from("Expression is too long"));
                     }
                     let expr = self.parse_cond()?;
@@ -687,15 +692,14 @@ impl Parser {
         let mut left = self.parse_mul_div()?;
 
         let mut op = None;
-        let mut terms = 0;
         loop {
             let lexem = self.next_lexem();
             if let Some(Lexem::ArithmeticOperator(s)) = lexem {
                 let new_op = ArithmeticOp::from(s);
                 match new_op {
                     Some(ArithmeticOp::Add) | Some(ArithmeticOp::Subtract) => {
-                        terms += 1;
-                        if terms > MAX_CHAIN_LENGTH {
+                        self.terms += 1;
+                        if self.terms > MAX_CHAIN_LENGTH {
                             return Err(String::from("Expression is too long"));
                         }
                         let expr = self.parse_mul_div()?;
@@ -728,7 +732,6 @@ impl Parser {
         let mut left = self.parse_paren()?;
 
         let mut op = None;
-        let mut terms = 0;
         loop {
             let lexem = self.next_lexem();
             if let Some(Lexem::ArithmeticOperator(s)) = lexem {
@@ -737,8 +740,8 @@ impl Parser {
                     Some(ArithmeticOp::Multiply)
                     | Some(ArithmeticOp::Divide)
                     | Some(ArithmeticOp::Modulo) => {
-                        terms += 1;
-                        if terms > MAX_CHAIN_LENGTH {
+                        self.terms += 1;
+                        if self.terms > MAX_CHAIN_LENGTH {
                             return Err(String::from("Expression is too long"));
                         }
                         let expr = self.parse_paren()?;
